@@ -174,7 +174,7 @@ def classify(c, detail, ginfo):
 
 # ------------------------------------------------------------------------------- running
 def run_driver(ctx, drv, lines, wd, nproc=14):
-    judged = [l for l in lines if l.startswith(("wrap ", "drop ", "cip "))]
+    judged = [l for l in lines if l.startswith(("wrap ", "drop ", "cip ", "trace "))]
     if not judged:
         return {}
     per = max(1, (len(judged) + nproc - 1) // nproc)
@@ -194,7 +194,7 @@ def run_driver(ctx, drv, lines, wd, nproc=14):
         for out in ex.map(work, range(len(chunks))):
             for l in out.splitlines():
                 t = l.split(None, 2)
-                if len(t) >= 2 and t[0] in ("ok", "skip", "MISMATCH"):
+                if len(t) >= 2 and t[0] in ("ok", "skip", "MISMATCH", "DIVERGE"):
                     verd[t[1]] = (t[0], t[2] if len(t) > 2 else "")
     return verd
 
@@ -344,6 +344,27 @@ def run(ctx):
                       found_input=True, record={"site": "crash", "tags": []})
         st["crash"] += 1
 
+    # the model against the real template: symbolic traces of Implementation::wrap_assign<Trace_PSET>
+    for l in lines:
+        if not l.startswith("trace "):
+            continue
+        t = l.split(None, 2)
+        v = verd.get(t[1])
+        if v is None:
+            st["trace_no_verdict"] += 1
+        elif v[0] == "ok":
+            kv = dict(x.split("=", 1) for x in v[1].split() if "=" in x)
+            st["trace_" + kv.get("trace", "?")] += 1
+            st["trace_trips"] += int(kv.get("trips", 0))
+        elif v[0] == "DIVERGE":
+            st["trace_diverge"] += 1
+            desc = l.split(" | ")[0].split(None, 2)[2]
+            ctx.violation("the model wrapAssign is no longer the transliteration of Implementation::wrap_assign (theorem wrap_sound does "
+                          "not cover this run): " + v[1][:400], {"description": desc, "trace_line": l[:4000], "verdict": v[1][:4000]},
+                          found_input=False, record={"site": "trace", "tags": []})
+        else:
+            st["trace_skip"] += 1
+
     # the literal witnesses of the open known findings are re-run in batch 0: say so when one no longer fails
     for f in ctx.findings:
         if f.get("property") == "C17" and f.get("status") == "open":
@@ -365,7 +386,8 @@ def run(ctx):
              "the planted degenerate witnesses (ids p*) are counted separately",
         planted_degenerate=len(planted), samples=samples, counts=dict(st),
         histograms={k: dict(v) for k, v in hist.items()},
-        traces_validated_against_impl=0,
+        traces_validated_against_impl=st["trace_written"] + st["trace_repaired"],
+        traces_matching_model_as_written=st["trace_written"], traces_matching_repaired_model_only=st["trace_repaired"],
         notes=ctx.notes)
     ctx.assumptions += [
         "the theorem wrap_sound is about the code-shaped model of wrap_assign.hh over an abstract domain whose operations are sound (these "
